@@ -25,6 +25,7 @@ type Obligation struct {
 	Text    string
 	WantSat bool // vacuity checks: the query (Guard ∧ Goal) must be satisfiable
 	Models  []modelQuery
+	CtxInts []string // integer loop variables of the loops enclosing the obligation (candidates for instantiation)
 }
 
 type modelQuery struct {
@@ -66,6 +67,7 @@ type Ctx struct {
 	fn        *ssa.Function
 	oblCount  map[string]int
 	rootFrame *frame
+	loopInts  []string // integer-valued loop variables (φ-nodes of loop headers) of the loops being executed
 	depth     int
 }
 
@@ -146,6 +148,7 @@ func (c *Ctx) oblige(kind, name string, guard, goal Term, pos token.Position, te
 		name = fmt.Sprintf("%s~%d", name, n)
 	}
 	o := &Obligation{Name: name, Func: c.fn.String(), Kind: kind, Prefix: len(c.body), Guard: guard, Goal: goal, Pos: pos, Text: text}
+	o.CtxInts = append(o.CtxInts, c.loopInts...)
 	c.obls = append(c.obls, o)
 	return o
 }
